@@ -192,6 +192,42 @@ Proof.
 Qed.
 Print Assumptions C05_source_constants.
 
+(* ---- 10. the model is the code: cryptBlock and generateSubKeys regenerated from sm4/sm4.go ------------------------ *)
+(* Gen/SM4Code.v is written by the translator from the bodies of cryptBlock (once per value of `decrypt`) and
+   generateSubKeys: loops unrolled, rl/l0/p/feistel0/permute*Block (and any other pure helper) inlined, uint32 wrap,
+   shifts and masks as explicit arithmetic, table lookups as nth into the regenerated tables.  For all inputs of the
+   lengths the callers pass (32 round keys, 16-byte src, r and dst) the generated functions return what the hand-written
+   model returns - all three results of cryptBlock (b, r, dst) - and hence, for byte inputs, the standard's round keys,
+   encryption and decryption.  Proofs: SM4/SM4CodeTie.v (by the meaning of the statements, insensitive to the grouping
+   of the xors of a round). *)
+From GmsmVerif Require Import Gen.SM4Code SM4.SM4CodeTie.
+
+Theorem C05_generated_code_is_model :
+  (forall decrypt sk src b_in r_in dst,
+     length sk = 32%nat -> length src = 16%nat -> length r_in = 16%nat -> length dst = 16%nat ->
+     exists o, gen_cryptBlock_list decrypt sk src = Some o /\ cryptBlock sk b_in r_in dst src decrypt = Ok o) /\
+  (forall key, length key = 16%nat ->
+     exists sk, gen_generateSubKeys_list key = Some sk /\ generateSubKeys key = Ok sk /\ length sk = 32%nat) /\
+  (forall key src,
+     length key = 16%nat -> bytes_ok key = true -> length src = 16%nat -> bytes_ok src = true ->
+     gen_generateSubKeys_list key = Some (sm4_round_keys key) /\
+     (exists b r, gen_cryptBlock_list false (sm4_round_keys key) src = Some (b, r, sm4_encrypt_block key src)) /\
+     (exists b r, gen_cryptBlock_list true (sm4_round_keys key) src = Some (b, r, sm4_decrypt_block key src))).
+Proof.
+  split; [exact gen_cryptBlock_list_is_model|]. split; [exact gen_generateSubKeys_list_is_model|exact gen_code_is_spec].
+Qed.
+Print Assumptions C05_generated_code_is_model.
+
+(* non-vacuity of theorem 10: the generated code itself evaluated on Annex A.1 *)
+Example C05_example_generated_code :
+  (match gen_generateSubKeys_list A1_key with
+   | Some sk => match gen_cryptBlock_list false sk A1_key with Some (_, _, ct) => ct | None => [] end
+   | None => [] end) = A1_cipher /\
+  (match gen_generateSubKeys_list A1_key with
+   | Some sk => match gen_cryptBlock_list true sk A1_cipher with Some (_, _, pt) => pt | None => [] end
+   | None => [] end) = A1_key.
+Proof. exact gen_code_standard_vector. Qed.
+
 (* ---- non-vacuity: the hypotheses are satisfiable, instances evaluated ---------------------------------- *)
 Example C05_example_standard_vector :
   length A1_key = 16%nat /\ bytes_ok A1_key = true /\
